@@ -57,7 +57,11 @@ def _worker(args):
             v = ctx.last_violation or v
             rep = {"property": prop_id, "clause": v.clause, "detail": str(v.detail)[:4000], "seed": seed,
                    "shard": shard, "tier": tier, "config": v.config, "ops": v.ops, "minimized": False}
-            if v.ops is not None and getattr(prop, "MINIMIZE", True):
+            if not getattr(v, "minimize", True):
+                rep["custom"] = "fixed-probe"
+                rep["ops"] = (v.ops or [])[-3:]
+                rep["note"] = "found by a fixed (scale) probe of this check; --replay re-runs the probe of that shard"
+            elif v.ops is not None and getattr(prop, "MINIMIZE", True):
                 try:
                     cfg = dict(v.config)
                     ops, evals, ok = minimize(prop, cfg, v.ops, v.clause, known, budget=(150 if tier == "quick" else 400))
